@@ -204,6 +204,17 @@ reg("C17","model_checking",
  "explicit-state BFS over scripted environment answers on the real hop/step code against a reference machine + exhaustive lattices against an independent reference integration",
  "DESIGN.md section 4, C17")
 
+reg("C05","exploration",
+ "Exhaustive product lattice of batch layouts executed on the real code, every row of every batch compared with the same molecule computed alone: all ordered batches with repetition of size <= 2 (quick) / <= 3 (thorough) from {CH4,H2O,HF,OH-,NH4+,H2CO,C2H2} x extra padding width {0,1,3} x padding-slot coordinate pattern {0, coincident with atom 0, (7.7,-3.3,1.1), 1e4, a different value per slot} x {AM1,PM6_SP} x {adaptive,Pulay,SP2}; force modes, every same-element atom transposition, CIS/RPA on homogeneous (symmetric+distorted copies) and mixed batches, and BOMD/XL-BOMD/KSA trajectories (every HDF5 dataset; Krylov thresholds 0,1e-1,1e-2,3e-3,1e-3) on stated sub-lattices; every call under a deterministic iteration horizon; never-written torch.empty memory is answered by the harness (zeros; NaN on the excited-state and configuration sub-lattices).",
+ "Trusted: the single-molecule run as differential twin, h5py. Tolerance 1000 x max(scf_eps 1e-10, SP2 threshold 1e-7), 1000 x Davidson tolerance for excited-state quantities, MD datasets relative to max(1,|ref|). Counted, not judged: notconverged rows, loud rejections (RPA / excited gradients on mixed batches), SP2+padded+anion horizon trips (C03). Langevin engines not compared. Bounds: batch size <= 3, 4 MD steps. Known finding: KSA-XL-BOMD Krylov rank is batch-global when err_threshold > 0.",
+ "explicit enumeration of a finite lattice of batch layouts on the real code with a differential (alone vs in-batch) oracle on every point",
+ "DESIGN.md section 4, C05")
+reg("C20","model_checking",
+ "S-seq over the stop machine of Geometry_Optimization_SD: the real run() is executed with onestep wrapped to record every (geometry, force, energy) evaluated and stdout captured; each recorded evaluation sequence is replayed against the reference model (x+alpha*F update, stop at first max|F|<=tol or at the cap, report, returned values). Long family: systems (singles, zero-/far-/mixed-padded {CH4,H2O} batches) x fixed start distortions x step factor {1e-4..2e-2} x method x solver (density reuse) with descent, padding-immobility, batch-vs-alone prefix equality and independent re-evaluation of the used force/energy; stop family: tolerance x cap alphabets built to collide with each trajectory (caps n*-1,n*,n*+1, tolerances bitwise equal to an observed max|F|), every run must stop where the model stops and reproduce the trajectory prefix bitwise. States = (iteration, converged?, cap reached?), transitions = optimiser iterations executed, traces = runs checked against the model.",
+ "Trusted: the wrapper around onestep; the documented update rule. Descent demanded for alpha <= 5e-3 with slack 10 x scf_eps; re-evaluation only before the first energy rise of a run (multi-solution SCF outside the statement). Bounds: cap <= 40 (quick) / 60 and 200 (thorough).",
+ "bounded exhaustive exploration of the optimiser's stop machine on the real code with a reference stop/update model replayed on every recorded run",
+ "DESIGN.md section 4, C20")
+
 ALL = [f"C{i:02d}" for i in range(1, 21)]
 
 
